@@ -36,7 +36,10 @@ import (
 	"golang.org/x/tools/go/packages"
 )
 
-const modPath = "github.com/nyaruka/goflow"
+// module whose packages are being analysed: goflow, and in the second pass the dependency github.com/nyaruka/gocommon
+var modPath = "github.com/nyaruka/goflow"
+
+const depPath = "github.com/nyaruka/gocommon"
 
 // packages that are not part of the engine library: command line tools, test helpers, generated parsers
 var skipPrefixes = []string{"cmd/", "test", "antlr/gen/"}
@@ -166,6 +169,93 @@ func main() {
 			coqString(s.Pkg), coqString(s.Func), s.Ord, coqString(s.MapType), s.Callers, strings.Join(s.Effects, "; "), sep)
 	}
 	sb.WriteString("].\n\n")
+	// second pass: the packages of github.com/nyaruka/gocommon that goflow imports (urns, dates, i18n, jsonx ...), read
+	// from the module cache: goflow's output goes through them, so their map iteration is part of the census
+	depPkgs := map[string]bool{}
+	var visitImports func(p *packages.Package)
+	seenPkg := map[string]bool{}
+	visitImports = func(p *packages.Package) {
+		if seenPkg[p.PkgPath] {
+			return
+		}
+		seenPkg[p.PkgPath] = true
+		if p.PkgPath == depPath || strings.HasPrefix(p.PkgPath, depPath+"/") {
+			depPkgs[p.PkgPath] = true
+		}
+		for _, ip := range p.Imports {
+			visitImports(ip)
+		}
+	}
+	for _, p := range mine {
+		visitImports(p)
+	}
+	var depPatterns []string
+	for pp := range depPkgs {
+		depPatterns = append(depPatterns, pp)
+	}
+	sort.Strings(depPatterns)
+	var depSites []site
+	depScanned := 0
+	if len(depPatterns) > 0 {
+		dpkgs, err := packages.Load(cfg, depPatterns...)
+		if err != nil {
+			fatal("load %s: %v", depPath, err)
+		}
+		var dmine []*packages.Package
+		for _, p := range dpkgs {
+			if len(p.Errors) > 0 {
+				fatal("package %s has errors: %v", p.PkgPath, p.Errors[0])
+			}
+			if p.PkgPath == depPath || strings.HasPrefix(p.PkgPath, depPath+"/") {
+				dmine = append(dmine, p)
+			}
+		}
+		sort.Slice(dmine, func(i, j int) bool { return dmine[i].PkgPath < dmine[j].PkgPath })
+		modPath = depPath
+		da := &analyzer{fset: dpkgs[0].Fset, pkgs: dmine}
+		da.buildCallGraph()
+		da.buildSummaries()
+		da.countUses()
+		for _, p := range dmine {
+			rel := "gocommon/" + strings.TrimPrefix(strings.TrimPrefix(p.PkgPath, depPath), "/")
+			for i, f := range p.Syntax {
+				name := p.CompiledGoFiles[i]
+				if strings.HasSuffix(name, "_test.go") || isGenerated(f) {
+					continue
+				}
+				depScanned++
+				depSites = append(depSites, da.fileSites(p, rel, f)...)
+			}
+		}
+		modPath = "github.com/nyaruka/goflow"
+		sort.SliceStable(depSites, func(i, j int) bool {
+			if depSites[i].Pkg != depSites[j].Pkg {
+				return depSites[i].Pkg < depSites[j].Pkg
+			}
+			if depSites[i].Func != depSites[j].Func {
+				return depSites[i].Func < depSites[j].Func
+			}
+			return depSites[i].Ord < depSites[j].Ord
+		})
+	}
+	sb.WriteString("(* the packages of github.com/nyaruka/gocommon that goflow imports, read from the module cache *)\n")
+	fmt.Fprintf(&sb, "Definition dep_files_scanned : nat := %d.\n", depScanned)
+	sb.WriteString("Definition dep_map_range_sites : list site := [\n")
+	for i, s := range depSites {
+		sep := ";"
+		if i == len(depSites)-1 {
+			sep = ""
+		}
+		fmt.Fprintf(&sb, "  (* %s  %s *)\n", s.Pos, s.Kind)
+		fmt.Fprintf(&sb, "  {| s_pkg := %s; s_func := %s; s_ord := %d; s_maptype := %s; s_callers := %d; s_effects := [%s] |}%s\n",
+			coqString(s.Pkg), coqString(s.Func), s.Ord, coqString(s.MapType), s.Callers, strings.Join(s.Effects, "; "), sep)
+	}
+	sb.WriteString("].\n\n")
+	if *list {
+		for _, s := range depSites {
+			fmt.Printf("DEP %-26s %-40s %d c=%d %-24s [%s]   %s\n", s.Pkg, s.Func, s.Ord, s.Callers, s.Pos, strings.Join(s.Effects, "; "), s.MapType)
+		}
+	}
 	sb.WriteString("(* flows/definition/migrations: the versions passed to registerMigration, in source order *)\n")
 	sb.WriteString("Definition registered_versions : list (N * N * N) := [")
 	for i, v := range versions {
